@@ -239,7 +239,8 @@ func c11backend(env sched.Env) *sched.Report {
 	// (1) redirection / cluster-down error texts through the real callbacks
 	var texts []string
 	toks := []string{"10.0.9.9:1", "", "x", ":", "1"}
-	for _, head := range []string{"MOVED", "ASK", "CLUSTERDOWN", "moved", "Ask", "MOVEDX", "ERR"} {
+	// "\u017f" (long s) and "\u212a" (Kelvin sign) fold to s and k under Unicode case folding
+	for _, head := range []string{"MOVED", "ASK", "CLUSTERDOWN", "moved", "Ask", "MOVEDX", "ERR", "A\u017fK", "AS\u212a", "a\u017f\u212a", "CLU\u017fTERDOWN", "ASKING"} {
 		texts = append(texts, head, head+" ")
 		for _, a := range toks {
 			texts = append(texts, head+" "+a)
